@@ -25,6 +25,7 @@ var (
 	moduleType    = reflect.TypeOf((*api.Module)(nil)).Elem()
 	goContextType = reflect.TypeOf((*context.Context)(nil)).Elem()
 	errorType     = reflect.TypeOf((*error)(nil)).Elem()
+	float32Type   = reflect.TypeOf(float32(0))
 )
 
 // compile-time check to ensure reflectGoModuleFunction implements
@@ -108,7 +109,8 @@ func callGoFunc(ctx context.Context, mod api.Module, fn *reflect.Value, stack []
 
 			switch k {
 			case reflect.Float32:
-				val.SetFloat(float64(math.Float32frombits(uint32(raw))))
+				// Convert (not SetFloat) keeps a signaling NaN as is: no round trip through float64.
+				val.Set(reflect.ValueOf(math.Float32frombits(uint32(raw))).Convert(next))
 			case reflect.Float64:
 				val.SetFloat(math.Float64frombits(raw))
 			case reflect.Uint32, reflect.Uint64, reflect.Uintptr:
@@ -126,7 +128,8 @@ func callGoFunc(ctx context.Context, mod api.Module, fn *reflect.Value, stack []
 	for i, ret := range fn.Call(in) {
 		switch ret.Kind() {
 		case reflect.Float32:
-			stack[i] = uint64(math.Float32bits(float32(ret.Float())))
+			// Convert (not Float) keeps a signaling NaN as is: no round trip through float64.
+			stack[i] = uint64(math.Float32bits(ret.Convert(float32Type).Interface().(float32)))
 		case reflect.Float64:
 			stack[i] = math.Float64bits(ret.Float())
 		case reflect.Uint32, reflect.Uint64, reflect.Uintptr:
